@@ -99,6 +99,15 @@ const U8_DOM: [u8; 5] = [0, 1, 2, 3, 255];
 const U16_DOM: [u16; 4] = [0, 1, 2, 0xffff];
 const U32_DOM: [u32; 4] = [0, 1, 2, 0xffff_ffff];
 const U64_DOM: [u64; 5] = [0, 1, 2, 1 << 62, u64::MAX];
+// thorough tier (VERIF_ENUM_WIDE=1): more representatives per draw (sign/width boundaries, a surrogate-range value)
+const U8_WIDE: [u8; 9] = [0, 1, 2, 3, 127, 128, 200, 254, 255];
+const U16_WIDE: [u16; 8] = [0, 1, 2, 255, 256, 0x7fff, 0x8000, 0xffff];
+const U32_WIDE: [u32; 9] = [0, 1, 2, 255, 65536, 0xD800, 0x7fff_ffff, 0x8000_0000, 0xffff_ffff];
+const U64_WIDE: [u64; 8] = [0, 1, 2, 0xffff_ffff, 1 << 32, 1 << 62, 1 << 63, u64::MAX];
+fn wide() -> bool {
+    static W: std::sync::OnceLock<bool> = std::sync::OnceLock::new();
+    *W.get_or_init(|| std::env::var("VERIF_ENUM_WIDE").map(|v| v == "1").unwrap_or(false))
+}
 impl EnumSrc {
     pub fn new() -> Self { EnumSrc { digits: Vec::new(), radix: Vec::new(), pos: 0, rejected: false } }
     fn pick(&mut self, n: usize) -> usize {
@@ -131,10 +140,10 @@ impl EnumSrc {
 }
 pub struct Rejected;
 impl Src for EnumSrc {
-    fn u8(&mut self) -> u8 { U8_DOM[self.pick(U8_DOM.len())] }
-    fn u16(&mut self) -> u16 { U16_DOM[self.pick(U16_DOM.len())] }
-    fn u32(&mut self) -> u32 { U32_DOM[self.pick(U32_DOM.len())] }
-    fn u64(&mut self) -> u64 { U64_DOM[self.pick(U64_DOM.len())] }
+    fn u8(&mut self) -> u8 { if wide() { U8_WIDE[self.pick(U8_WIDE.len())] } else { U8_DOM[self.pick(U8_DOM.len())] } }
+    fn u16(&mut self) -> u16 { if wide() { U16_WIDE[self.pick(U16_WIDE.len())] } else { U16_DOM[self.pick(U16_DOM.len())] } }
+    fn u32(&mut self) -> u32 { if wide() { U32_WIDE[self.pick(U32_WIDE.len())] } else { U32_DOM[self.pick(U32_DOM.len())] } }
+    fn u64(&mut self) -> u64 { if wide() { U64_WIDE[self.pick(U64_WIDE.len())] } else { U64_DOM[self.pick(U64_DOM.len())] } }
     fn u128(&mut self) -> u128 { self.u64() as u128 }
     fn bool(&mut self) -> bool { self.pick(2) == 1 }
     fn assume(&mut self, c: bool) { if !c { self.rejected = true; std::panic::panic_any(Rejected); } }
